@@ -29,6 +29,30 @@ def m_f15(req, impl, model, clause):
 MATCHERS = {"f14_ws_splits_cluster": m_f14, "f15_corrupt_grapheme_resegmentation": m_f15, "f13_clean_grapheme_resegmentation": m_f13, "f12_sid_normalized_gt_one": m_f12}
 
 PROPS = {
+    "C01": dict(
+        anchors=[("src/tokenization.rs", r"fn split_input<"), ("src/tokenization.rs", r"fn new_base_tokenizer\("), ("src/tokenization.rs", r"fn process_input\("), ("src/tokenization.rs", r"impl Tokenize for ByteTokenizer"), ("src/tokenization.rs", r"impl VocabTokenize<char> for CharTokenizer"), ("src/tokenization.rs", r"impl<Token, Config> Tokenize for VocabTokenizer<Token, Config>")],
+        rule="P01",
+        claim="P01", note="P01",
+        min_nontrivial={"quick": 300, "thorough": 5000},
+        reject_ok=True,
+    ),
+    "C02": dict(
+        anchors=[("src/tokenization.rs", r"fn merge_bytes\("), ("src/tokenization.rs", r"impl Tokenize for BPETokenizer"), ("src/tokenization.rs", r"impl BPETokenizer")],
+        rule="P02", claim="P02", note="P02",
+        min_nontrivial={"quick": 300, "thorough": 5000},
+        reject_ok=True,
+    ),
+    "C03": dict(
+        anchors=[("src/tokenization.rs", r"fn merge_bytes\(")],
+        rule="P03", claim="P03", note="P03",
+        min_nontrivial={"quick": 300, "thorough": 5000},
+    ),
+    "C04": dict(
+        anchors=[("src/tokenization.rs", r"impl Tokenize for BPETokenizer"), ("src/tokenization.rs", r"impl Tokenize for ByteTokenizer"), ("src/tokenization.rs", r"fn build\("), ("src/tokenization.rs", r"impl<Token, Config> Tokenize for VocabTokenizer<Token, Config>")],
+        rule="P04", claim="P04", note="P04",
+        min_nontrivial={"quick": 50, "thorough": 1000},
+        reject_ok=True,
+    ),
     "C10": dict(
         anchors=[("src/whitespace.rs", r"pub fn operations\("), ("src/whitespace.rs", r"pub fn repair\(")],
         rule="pairs built from one non-whitespace skeleton with independent spacings (70%), non-clean / unequal pairs (30%), arbitrary operation sequences for repair; both modes; thorough adds all pairs of strings of length <= 4 over {a,b,space,U+3000}",
